@@ -312,11 +312,9 @@ Inductive stats_result : Set :=
 (* `now - stats_start_time` is a u128 subtraction *)
 Definition network_stats (dbg : bool) (now : Z) (s : ep) : res stats_result :=
   match u_state s with
-  | PSynchronizing | PRunning =>
-    if now <? u_stats_start s then
-      (if dbg then Panic else
-       Ok (Stats (u_rtt s) (Z.of_nat (length (u_pending_output s))) (u_local_adv s) (u_remote_adv s)))
-    else if (now - u_stats_start s) / 1000 =? 0 then Ok StatsNotEnoughData
+  | PSynchronizing => Ok StatsNotEnoughData      (* e8d2ee9: no data before the connection is established *)
+  | PRunning =>
+    if (Z.max 0 (now - u_stats_start s)) / 1000 =? 0 then Ok StatsNotEnoughData   (* saturating_sub *)
     else Ok (Stats (u_rtt s) (Z.of_nat (length (u_pending_output s))) (u_local_adv s) (u_remote_adv s))
   | _ => Ok StatsNotSynchronized
   end.
@@ -355,7 +353,7 @@ Definition on_sync_reply (dbg : bool) (now nonce magic n : Z) (s : ep) : res ep 
       Ok (send_sync_request now nonce
             (push_event (EvSynchronizing NUM_SYNC_PACKETS ((NUM_SYNC_PACKETS - rem) mod 4294967296)) s2))
     else
-      Ok (set_remote_magic magic (push_event EvSynchronized (set_state PRunning s2))).
+      Ok (set_remote_magic magic (push_event EvSynchronized (set_stats_start now (set_state PRunning s2)))).
 
 (* the loop `for i in 0..self.peer_connect_status.len()` indexes the packet's vector *)
 Fixpoint merge_status (mine theirs : list status) : res (list status) :=
